@@ -81,4 +81,20 @@ def config(name, rng, tier, seed=0):
         base["parent_atol"] = rng.choice([1e-6, 1e-4])
         base["parallel_mode"] = rng.choice([{"per_sample_unit": 2}, {"per_estimator_unit": 2}, {"per_data_generation": 2, "per_estimator_execution": 2}])
         return base
+    if name == "two_settings":
+        # one call handles two test settings: what each yields must not depend on the other
+        ut = rng.choice(["state", "state", "povm", "gate"])
+        base["unknown"] = [ut, rng.choice(workload.UNKNOWNS[ut])]
+        base["noise"] = rng.choice([["none", {}, {}], ["depolarized", {"error_rate": 0.1}, {"error_rate": 0.02}], base["noise"]])
+        base["cases"] = [{"estimator": "linear", "para": True, "eps_proj_physical": 1e-9}, {"estimator": "plinear", "para": False, "eps_proj_physical": 1e-9, "mode_proj_order": "eq_ineq"}]
+        if ut == "state":
+            base["cases"].append(_lossmin("fast_se", mode_weight=rng.choice(["identity", "inverse_sample_covariance"]), max_iteration=30))
+        base["num_data"] = [100] if ut == "gate" else [100, 1000]
+        base["n_rep"] = 2
+        base["n_sample"] = rng.choice([1, 2])
+        base["seed_data"] = rng.choice([0, 7, 777])
+        base["parallel_mode"] = rng.choice([{"per_sample_unit": 2}, {"per_estimator_unit": 2}, {"per_data_generation": 2, "per_estimator_execution": 2}, {"per_sample_unit": 2, "per_estimator_unit": 2}])
+        base["exec_sim_check"] = rng.choice([None, {"consistency": False, "mse_of_estimators": False, "mse_of_empi_dists": False, "physicality_violation": True}])
+        base["companion"] = workload.gen_companion(rng, base)
+        return base
     raise ValueError(name)
